@@ -39,7 +39,7 @@ for cid in sys.argv[1:]:
     out = "/tmp/seed/%s/_out" % cid
     for diff in sorted(glob.glob(out + "/m[0-9].diff")):
         mi = os.path.basename(diff)[:-5]
-        sid = "%s-%s" % (cid, mi)
+        sid = "%s-m%d" % (cid, int(mi[1:]) + int(os.environ.get("SEED_OFFSET", "0")))
         meta_in = {}
         try: meta_in = json.load(open(out + "/%s.json" % mi))
         except Exception as e: meta_in = {"summary": "(agent json unreadable: %s)" % e}
@@ -81,7 +81,7 @@ for cid in sys.argv[1:]:
             d = "/verif/seeded/" + sid
             if ok:
                 os.makedirs(d, exist_ok=True)
-                shutil.copy(diff, d + "/patch.diff"); shutil.copy(demo, d + "/" + os.path.basename(demo).replace(mi + "_", "demo_"))
+                shutil.copy(diff, d + "/patch.diff"); shutil.copy(demo, d + "/" + os.path.basename(demo).replace(mi + "_", "demo_")); shutil.copy(out + "/%s.json" % mi, d + "/agent.json") if os.path.exists(out + "/%s.json" % mi) else None
                 json.dump(res, open(d + "/meta.json", "w"), indent=1)
             print(sid, "ACCEPT" if ok else "REJECT(suite=%s demoFail=%s demoPassClean=%s)" % (res["existing_suite_passes_with_change"], res["demo_fails_with_change"], res["demo_passes_without_change"]),
                   "| detected by target:", res["detected_by_target_property"], "| any:", sorted(k for k, v in det.items() if v["exit"] == 1), "| undecided:", sorted(k for k, v in det.items() if v["exit"] == 2))
